@@ -361,8 +361,8 @@ Definition acorr (a : Z) (nd : Z) (bot : vec T) (nm : vec T) : T :=
 Definition vunit (a : Z) (x : T) : vec T :=
   match a with 0 => mkV x zero zero | 1 => mkV zero x zero | _ => mkV zero zero x end.
 
-Definition wall_intersection (cur : cref) (p : vec T) : awi T :=
-  let bb := box_of g cur in
+(* the geometric part of get_wall_intersection: the wall hit next: (axis, next_wall, squared distance, next_direction) *)
+Definition wall_select (bb : tbox T) (p : vec T) : Z * vec T * T * Z :=
   let bot := tb_a bb in
   let top := vplus (tb_a bb) (tb_s bb) in
   let '(lx, ndx) := awall1 (vx d) (vx top) (vx bot) (vx p) in
@@ -374,16 +374,16 @@ Definition wall_intersection (cur : cref) (p : vec T) : awi T :=
   let '(lz, ndz) := awall1 (vz d) (vz top) (vz bot) (vz p) in
   let next_z := vplus p (vscale d lz) in
   let dz := norm2 (vminus next_z p) in
-  let '(a, next_wall, ds2, nd) :=
-    if (dx <. dy) && (dx <. dz) then (0, next_x, dx, ndx)
-    else if (dy <. dx) && (dy <. dz) then (1, next_y, dy, ndy)
-    else if (dz <. dx) && (dz <. dy) then (2, next_z, dz, ndz)
-    else if (dx ==. dy) || (dx ==. dz) then (0, next_x, dx, ndx)
-    else (1, next_y, dy, ndy) in
-  let ds := sqrtT ds2 in
-  let high := negb (nd <? 0) in
-  match ngb g cur a high with
-  | None => mkWI next_wall ds None (mkV zero zero zero) a high
+  if (dx <. dy) && (dx <. dz) then (0, next_x, dx, ndx)
+  else if (dy <. dx) && (dy <. dz) then (1, next_y, dy, ndy)
+  else if (dz <. dx) && (dz <. dy) then (2, next_z, dz, ndz)
+  else if (dx ==. dy) || (dx ==. dz) then (0, next_x, dx, ndx)
+  else (1, next_y, dy, ndy).
+
+(* the neighbour part: cell->get_ngb(ngbposition), the periodic correction, the descent to a single cell *)
+Definition next_cell (cur : cref) (a : Z) (nd : Z) (bot next_wall : vec T) : option cref * vec T :=
+  match ngb g cur a (negb (nd <? 0)) with
+  | None => (None, mkV zero zero zero)
   | Some nc =>
     let corr := vunit a (acorr a nd bot (tb_a (box_of g nc))) in
     let q := if fxC then vplus next_wall corr else next_wall in
@@ -392,8 +392,15 @@ Definition wall_intersection (cur : cref) (p : vec T) : awi T :=
       | Some t => (fst nc, descend t (box_of g nc) (snd nc) q)
       | None => nc
       end in
-    mkWI next_wall ds (Some leaf) corr a high
+    (Some leaf, corr)
   end.
+
+Definition wall_intersection (cur : cref) (p : vec T) : awi T :=
+  let bb := box_of g cur in
+  let '(a, next_wall, ds2, nd) := wall_select bb p in
+  let ds := sqrtT ds2 in
+  let '(nxt, corr) := next_cell cur a nd (tb_a bb) next_wall in
+  mkWI next_wall ds nxt corr a (negb (nd <? 0)).
 
 Definition abody (cur : cref) (st : astate T) : astate T :=
   let p := as_pos st in
@@ -441,6 +448,7 @@ Arguments block_box {T}. Arguments child_box {T}. Arguments box_of_rpath {T}. Ar
 Arguments cell_of {T}. Arguments is_single {T}. Arguments block_index1 {T}. Arguments half_index1 {T}. Arguments locate {T}.
 Arguments amr_locate {T}. Arguments block_ngb {T}. Arguments ngb_rp {T}. Arguments ngb {T}. Arguments child_of_pos {T}.
 Arguments descend {T}. Arguments awall1 {T}. Arguments acorr {T}. Arguments vunit {T}. Arguments wall_intersection {T}.
+Arguments wall_select {T}. Arguments next_cell {T}.
 Arguments abody {T}. Arguments amarch {T}. Arguments amr_interact {T}.
 
 (* ---------------------------------------------------------------------------
